@@ -8,4 +8,8 @@ StakeEq  == [o \in Oracle |-> 1]
 \* unequal stakes of the size of real ones (1 unit = 100 FX): +1 unit moves the normalised powers by about 0.1%
 \* (a fraction with a long binary expansion); +120 on o1 moves them by 9.78%, +126 by 10.2% (threshold 10%)
 StakeBig == [o \in Oracle |-> CASE o = "o1" -> 500 [] o = "o2" -> 300 [] o = "o3" -> 225 [] OTHER -> 150]
+\* stakes in TENTHS of a power unit (Unit = 10): o1 a regular oracle (4 power units), o2 and o3 below one power unit
+\* (power 0: bonded and online once governance has lowered the delegate threshold, but without a say in the bridge);
+\* +2 stake units lift o2 to exactly one power unit and leave the power of o1 unchanged
+StakeSub == [o \in Oracle |-> CASE o = "o1" -> 40 [] o = "o2" -> 8 [] OTHER -> 6]
 =============================================================================
